@@ -143,6 +143,18 @@ def check(case):
                     fails.append(Fail("common_set_pruned", f"{key}", "subset of the common subgraph mappings", key_extra=key))
             if mt._last_size != (K if (mcs or f) else 0) and mcs:
                 fails.append(Fail("last_size", f"{key}: {mt._last_size}", str(K), key_extra=key))
+    # one matcher object reused for another pair first, and the same graph object on both sides
+    mt = M1(node_attrs=["element"], edge_attrs=["order"], prune_wc=wc)
+    mt.find_common_subgraph(G2, G2, mcs=True)
+    same = mt.get_mappings("G1_to_G2")
+    ncalls += 1
+    if P2.number_of_nodes() and not any(all(k == v for k, v in m.items()) and len(m) == P2.number_of_nodes() for m in same):
+        fails.append(Fail("same_object_pair", f"M1(G2,G2): {same[:2]}", "contains the identity on all (non-wildcard) atoms"))
+    mt.find_common_subgraph(G1, G2, mcs=True)
+    ncalls += 1
+    reused = {tuple(sorted(m.items())) for m in mt.get_mappings("G1_to_G2")}
+    if reused != maxm:
+        fails.append(Fail("matcher_reuse", f"M1 reused after another pair: {sorted(reused)}", f"{sorted(maxm)}"))
     # molecule-level mode: whole components
     mt = M1(node_attrs=["element"], edge_attrs=["order"], prune_wc=wc)
     mt.find_common_subgraph(G1, G2, mcs_mol=True)
